@@ -3,6 +3,7 @@ package checks
 import (
 	"fmt"
 	"math/rand"
+	"runtime"
 	"sort"
 	"strings"
 
@@ -47,13 +48,17 @@ func init() {
 			"the object is built 3 times with different insertion orders, each shape evaluated repeatedly on each build (20 / 60 repetitions) interleaved with evaluations on " +
 			"bigger and smaller maps that recycle the pooled key buffers; judged: all repetitions identical and equal to the order computed with sort.Strings / pre-order / " +
 			"written order (SPEC), and for the plain wildcard shape to the directly sorted key list; hooks: adversarial key scrambling before the library's sort, key-buffer poison; " +
-			"non-trivial = every key set; distinct = distinct key sets",
+			"the thorough tier runs everything a second time from a binary built with go1.26 (different map implementation and iteration order); non-trivial = every key set; distinct = distinct key sets",
 		Assumptions: []string{"byte-wise order = Go string comparison = sort.Strings", "Go randomises map iteration per range loop; the scramble hook additionally forces reverse-sorted / rotated / by-length input to the library's sort"},
 		Plan: func(tier string, seed int64) *harness.Plan {
 			reps := size(tier, 20, 60)
 			return &harness.Plan{
-				N:        size(tier, 12000, 600000),
-				Setup:    func(c *harness.Ctx) { hooksOn() },
+				N:            size(tier, 12000, 600000),
+				AltToolchain: true,
+				Setup: func(c *harness.Ctx) {
+					hooksOn()
+					c.Cover("toolchain:" + runtime.Version())
+				},
 				Run:      func(c *harness.Ctx, k int) { runC07(c, reps) },
 				Finish:   reportHooks,
 				Required: []string{"keys:2", "keys:12", "shape:wildcard", "shape:recursive-name", "shape:filter", "shape:multi-with-wildcard"},
